@@ -185,11 +185,13 @@ def nexts : Nat → St → List Nat → St × List Nat
     | (s', .num k) => nexts n s' (k :: acc)
     | (s', _) => nexts n s' acc
 
-def stepLine (s : St) (toks : List String) : St × String :=
+/-- Sequential request lines without the state observation. -/
+def stepLineCore (s : St) (toks : List String) : St × String :=
   match toks with
   | ["mark"] => (s, showOptNat s.store)
   | "parrel" :: _ => (s, "ok")   -- concurrent Next vs Release: last request of a case, judged by the Go oracle only
   | ["sibling", _] => (s, "ok")  -- a sibling view of the store is opened and written: invisible to the sequence
+  | "cfg" :: _ => (s, "ok")      -- harness configuration (key, backend, wrapped not-found errors): invisible
   | [p, g, k] =>
     -- `par`: g×k concurrent Next calls; `parfr`: the same with foreign readers of another key on the same handle
     if p != "par" && p != "parfr" then (s, "bad-op") else
@@ -206,5 +208,58 @@ def stepLine (s : St) (toks : List String) : St × String :=
     | some (.new 0) => (s, "bad-op")
     | some op => let (s', o) := step s op; (s', showOut o)
     | none => (s, "bad-op")
+
+/-! ### What the harness observes after every request, besides the answer
+
+The private fields of the live object (`interval/next/reserved`, read by reflection), the raw bytes stored
+under the key (8 bytes, big endian) and the store calls the request made (`G`/`S` = `store.Get`/`store.Set`
+returned, `g`/`s` = the call failed with the injected I/O error). -/
+
+/-- `binary.BigEndian.PutUint64`: the 8 bytes of `n` (< 2^64), most significant first. -/
+def be8 (n : Nat) : List Nat :=
+  [n / 72057594037927936 % 256, n / 281474976710656 % 256, n / 1099511627776 % 256, n / 4294967296 % 256,
+   n / 16777216 % 256, n / 65536 % 256, n / 256 % 256, n % 256]
+
+/-- `binary.BigEndian.Uint64` of (the first 8 of) the given bytes. -/
+def unbe8 (l : List Nat) : Nat := (l.take 8).foldl (fun a b => a * 256 + b) 0
+
+def hex2 (b : Nat) : String := String.ofList [hexDigit (b / 16), hexDigit (b % 16)]
+
+def showObj : Option Obj → String
+  | none => "-"
+  | some o => s!"{o.interval}/{o.next}/{o.reserved}"
+
+def showStore : Option Nat → String
+  | none => "none"
+  | some n => String.join ((be8 n).map hex2)
+
+/-- The store calls of one operation, from the state before it. -/
+def calls (s : St) (op : Op) : String :=
+  match s.obj with
+  | none => ""
+  | some o =>
+    let upd := if lease (mark s) o.interval = 0 then "G" else "GS"
+    match op with
+    | .new _ => ""
+    | .next => if hasLease o then "" else upd
+    | .release => if hasLease o then "S" else ""
+    | .crash .idle => ""
+    | .crash .nextRead => if hasLease o then "" else "G"
+    | .crash .nextWrite => if hasLease o then "" else upd
+    | .crash .relWrite => if hasLease o then "S" else ""
+    | .failNext .get => if hasLease o then "" else "g"
+    | .failNext .set => if hasLease o then "" else if lease (mark s) o.interval = 0 then "G" else "Gs"
+    | .failRelease => if hasLease o then "s" else ""
+
+def obs (s : St) : String := s!"o={showObj s.obj} m={showStore s.store}"
+
+def stepLine (s : St) (toks : List String) : St × String :=
+  match toks with
+  | "parrel" :: _ => stepLineCore s toks
+  | _ =>
+    let (s', a) := stepLineCore s toks
+    match parseOp toks with
+    | some op => (s', s!"{a} | {obs s'} c={calls s op}")
+    | none => (s', s!"{a} | {obs s'}")
 
 end Hive.Seq
